@@ -87,6 +87,30 @@ Theorem C03_no_leak_after_reset : forall f m g b bs,
 Proof. exact no_leak_after_reset. Qed.
 Print Assumptions C03_no_leak_after_reset.
 
+(* several aggregate calls in one select list (one GroupAggregator, one state per call): the j-th call yields the
+   definition applied to ITS OWN argument expression evaluated per row -- whatever the other calls of the list and
+   their arguments are (same column, same aggregate, nested path, decimal literal ...) *)
+Theorem C03_select_list_correct : forall fs cells j f m sh,
+  nth_error fs j = Some (f, m, sh) ->
+  f <> AStdDev -> m <> MStar ->
+  match f with WStdDev | WStdDevS | WVar | WVarS => False | _ => True end ->
+  exists r, nth_error (sel_batch fs cells) j = Some r /\
+            ores_eq r (spec_batch f m (map (eval_arg sh) cells)).
+Proof. exact select_list_correct. Qed.
+Print Assumptions C03_select_list_correct.
+(* consecutive batches of a select list on one instance: every batch, every call, a function of the own batch and
+   the own argument only *)
+Theorem C03_select_list_batches : forall fs bs,
+  sel_run fs (sel_init fs) bs = map (fun b => map (field_batch b) fs) bs.
+Proof. exact sel_run_fields. Qed.
+Print Assumptions C03_select_list_batches.
+Example C03_select_list_example :
+  sel_batch [(ASum, MExpr, ShAff OMul 2); (ASum, MExpr, ShAff OAdd 1);
+             (AMin, MExpr, ShAff OMul (5 # 2)); (AFirst, MExpr, ShAff OAdd 1)]
+            [Cell (VInt 1); Cell (VInt (-4)); Cell VNull; Missing; Cell (VInt 10)]
+  = [Some (RNum 14); Some (RNum 10); Some (RNum (-10)); Some (RVal (VFlt 2))].
+Proof. exact select_list_example. Qed.
+
 (* FINDING: the registered STDDEV is the sample deviation, the documentation says population *)
 Theorem C03_stddev_population_refuted :
   exists vs, run AStdDev vs = RSqrt 1 /\ spec AStdDev vs = RSqrt (var_pop [1; 2; 3]) /\ var_pop [1; 2; 3] == 2 # 3.
